@@ -4,7 +4,7 @@ EXTENDS Integers, Sequences, FiniteSets, TLC
 
 NONE == -1          \* Option::None for an index
 
-Arity(d, i) == IF d[i][1] = 0 THEN 0 ELSE IF d[i][2] = 0 THEN 1 ELSE 2
+ArityD(d, i) == IF d[i][1] = 0 THEN 0 ELSE IF d[i][2] = 0 THEN 1 ELSE 2
 
 (***************************************************************************)
 (* Declarative references (L0 style): plain structural recursion with a    *)
@@ -14,7 +14,7 @@ Arity(d, i) == IF d[i][1] = 0 THEN 0 ELSE IF d[i][2] = 0 THEN 1 ELSE 2
 RECURSIVE PoVisit(_, _, _, _, _)
 PoVisit(d, s, sw, st, n) ==
   IF s[n] # 0 /\ st.seen[s[n]] # NONE THEN [st EXCEPT !.ret = st.seen[s[n]]]
-  ELSE LET a  == Arity(d, n)
+  ELSE LET a  == ArityD(d, n)
            c1 == IF a = 2 /\ sw THEN d[n][2] ELSE d[n][1]
            c2 == IF a = 2 /\ sw THEN d[n][1] ELSE d[n][2]
            s1 == IF a >= 1 THEN PoVisit(d, s, sw, st, c1) ELSE [st EXCEPT !.ret = NONE]
@@ -37,8 +37,8 @@ PreVisit(d, s, st, n) ==
   IF s[n] # 0 /\ st.seen[s[n]] # NONE THEN st
   ELSE LET s0 == [seen |-> IF s[n] # 0 THEN [st.seen EXCEPT ![s[n]] = 0] ELSE st.seen,
                   out  |-> Append(st.out, n)]
-           s1 == IF Arity(d, n) >= 1 THEN PreVisit(d, s, s0, d[n][1]) ELSE s0
-       IN IF Arity(d, n) = 2 THEN PreVisit(d, s, s1, d[n][2]) ELSE s1
+           s1 == IF ArityD(d, n) >= 1 THEN PreVisit(d, s, s0, d[n][1]) ELSE s0
+       IN IF ArityD(d, n) = 2 THEN PreVisit(d, s, s1, d[n][2]) ELSE s1
 PRE(d, s) == PreVisit(d, s, [seen |-> EmptySeen(d), out |-> <<>>], Len(d)).out
 
 \* verbose pre order (doc comment of VerbosePreOrderIter): items <<node, index, depth, nYielded, complete>>
@@ -46,7 +46,7 @@ PRE(d, s) == PreVisit(d, s, [seen |-> EmptySeen(d), out |-> <<>>], Len(d)).out
 RECURSIVE VpVisit(_, _, _, _, _, _)
 VpVisit(d, s, md, st, n, depth) ==
   IF s[n] # 0 /\ st.seen[s[n]] # NONE THEN st
-  ELSE LET a   == Arity(d, n)
+  ELSE LET a   == ArityD(d, n)
            idx == st.idx
            go  == md = NONE \/ depth < md
            s0  == [seen |-> IF s[n] # 0 THEN [st.seen EXCEPT ![s[n]] = 0] ELSE st.seen,
